@@ -3,12 +3,12 @@
 use cgmath::prelude::*;
 use cgmath::{Basis3, Matrix3, Matrix4, Quaternion};
 
-use crate::clause;
-use crate::conv::*;
-use crate::fw::{Case, Clause};
-use crate::gen::{self, Rng, Tier};
-use crate::model::*;
-use crate::sc::{Ck, Rat, Sc};
+use cgv_core::clause;
+use cgv_core::conv::*;
+use cgv_core::fw::{Case, Clause};
+use cgv_core::gen::{self, Rng, Tier};
+use cgv_core::model::*;
+use cgv_core::sc::{Ck, Rat, Sc};
 
 fn abs_cmp(a: &Rat, b: &Rat) -> std::cmp::Ordering {
     // |a| vs |b| exactly
@@ -88,10 +88,10 @@ fn pm_eq<S: Sc>(ck: &mut Ck<S>, what: &str, got: Qt<S>, q: Qt<S>) {
     let mut plus_possible = true;
     let mut minus_possible = true;
     for i in 0..4 {
-        if S::t_eq(&got[i], &q[i]) == crate::iv::Tri::False {
+        if S::t_eq(&got[i], &q[i]) == cgv_core::iv::Tri::False {
             plus_possible = false;
         }
-        if S::t_eq(&got[i], &(-q[i])) == crate::iv::Tri::False {
+        if S::t_eq(&got[i], &(-q[i])) == cgv_core::iv::Tri::False {
             minus_possible = false;
         }
     }
